@@ -1,12 +1,183 @@
-/- C01 — property theorems (placeholder header; theorems follow). -/
-import AttrsModel.Spec.C01
+/-
+  C01 — property theorems: the generated initializer stores converter(argument | default | fresh factory
+  value) in every participating field, for arbitrary field lists and call shapes, identically in every
+  class mode.  Helper lemmas are in Proofs/Init*.lean.
+-/
+import AttrsModel.Proofs.InitWf
+
+namespace Attrs.C01
+open Attrs.Init
+open Attrs.C02 (hits cutAt expectedTrace eventsUpTo)
+
+/-- **C01_params**: positional parameters come first, in field order, then the keyword-only ones in field
+    order; both are taken from the `init` fields only. -/
+theorem C01_params (attrs : List Attr) :
+    params attrs = ((attrs.filter (·.init)).map paramOf).filter (!·.kwOnly) ++
+                   ((attrs.filter (·.init)).map paramOf).filter (·.kwOnly) := rfl
+
+/-- **C01_params_init_only**: every parameter is the alias of an `init=True` field (init=False fields are
+    not parameters), and every such field is a parameter. -/
+theorem C01_params_init_only (attrs : List Attr) (p : Param) :
+    p ∈ params attrs ↔ ∃ a ∈ attrs, a.init = true ∧ p = paramOf a := by
+  constructor
+  · exact mem_params attrs p
+  · rintro ⟨a, ha, hi, rfl⟩; exact paramOf_mem_params attrs a ha hi
+
+/-- **C01_optional_iff**: a parameter is optional iff its field has a default or factory. -/
+theorem C01_optional_iff (a : Attr) : (paramOf a).dflt.isSome = (a.dflt != .none) := by
+  cases h : a.dflt <;> simp [paramOf, h]
+
+/-- **C01_bind_iff**: a call raises TypeError iff an argument is missing, unknown, duplicated or surplus
+    (`callOk` is the declarative characterisation); no other outcome is a TypeError. -/
+theorem C01_bind_iff (c : Case) (hwf : wf c = true) (hk : known c = []) :
+    (runInit c).exc = some .typeError ↔ callOk (params c.run.attrs) c.call = false := by
+  cases hok : callOk (params c.run.attrs) c.call with
+  | false =>
+    have : bind (params c.eff.attrs) c.call = none := bind_none _ _ (by simpa using hok)
+    unfold runInit
+    dsimp only
+    rw [this]
+    simp
+  | true =>
+    have hb := bodyOK_of_wf c hwf hk hok
+    have := (runInit_spec c hb).2.2.2.1
+    rw [this]
+    split <;> simp
+
+/-- **C01_values**: for every well-formed call (no callback raising) each participating field holds
+    converter(passed value | declared default | fresh factory result) — exactly once through the
+    converter — and every other field is unset; arbitrary field lists, hierarchies and call shapes. -/
+theorem C01_values (c : Case) (hwf : wf c = true) (hk : known c = [])
+    (hok : callOk (params c.run.attrs) c.call = true) :
+    (runInit c).exc = none ∧
+    (runInit c).values = c.run.attrs.map (fun a => (a.name, expectedValue c.run.attrs c.call a)) := by
+  have hb := bodyOK_of_wf c hwf hk hok
+  have hf : c.run.fault = none := by
+    unfold wf at hwf
+    simp only [Bool.and_eq_true, eff_fault] at hwf
+    simpa using hwf.1.1.1.1.1.1.1
+  obtain ⟨_, _, _, h4, h5, _⟩ := runInit_spec c hb
+  constructor
+  · rw [h4]; simp [hf, C02.hits]
+  · rw [h5]; simp [specValues, hf, C02.hits]
+
+/-- the part of a field specification the stored value may depend on -/
+def core (a : Attr) : Attr := { a with isSlot := false, onSet := .unset, type := none, convType := none }
+
+theorem params_core (attrs : List Attr) : params (attrs.map core) = params attrs := by
+  have h : ((attrs.map core).filter (·.init)).map paramOf = (attrs.filter (·.init)).map paramOf := by
+    induction attrs with
+    | nil => rfl
+    | cons a l ih =>
+      have hi : (core a).init = a.init := rfl
+      have hp : paramOf (core a) = paramOf a := rfl
+      simp only [List.map_cons, List.filter_cons, hi]
+      cases a.init <;> simp [ih, hp]
+  unfold params
+  rw [h]
+
+theorem expectedValue_core (attrs : List Attr) (c : Call) (a : Attr) :
+    expectedValue (attrs.map core) c (core a) = expectedValue attrs c a := by
+  unfold expectedValue rawOf
+  rw [params_core]
+  rfl
+
+/-- **C01_mode_independent**: two classes whose field lists agree up to slot layout, hooks and annotations
+    — dict or slotted, mutable or frozen, hash-caching, exception, inherited, any front-end, any pre/post
+    hooks — store exactly the same values for the same call. -/
+theorem C01_mode_independent (c d : Case) (hc : wf c = true) (hd : wf d = true)
+    (kc : known c = []) (kd : known d = [])
+    (hattrs : c.run.attrs.map core = d.run.attrs.map core) (hcall : c.call = d.call)
+    (hok : callOk (params c.run.attrs) c.call = true) :
+    (runInit c).values.map (·.2) = (runInit d).values.map (·.2) ∧ (runInit d).exc = (runInit c).exc := by
+  have hp : params d.run.attrs = params c.run.attrs := by
+    rw [← params_core c.run.attrs, ← params_core d.run.attrs, hattrs]
+  have hokd : callOk (params d.run.attrs) d.call = true := by rw [hp, ← hcall]; exact hok
+  obtain ⟨e1, v1⟩ := C01_values c hc kc hok
+  obtain ⟨e2, v2⟩ := C01_values d hd kd hokd
+  refine ⟨?_, by rw [e1, e2]⟩
+  rw [v1, v2]
+  simp only [List.map_map, Function.comp_def]
+  have : ∀ (attrs : List Attr) (cl : Call),
+      attrs.map (fun a => expectedValue attrs cl a) =
+        (attrs.map core).map (fun a => expectedValue (attrs.map core) cl a) := by
+    intro attrs cl
+    rw [List.map_map]
+    apply List.map_congr_left
+    intro a _
+    exact (expectedValue_core attrs cl a).symm
+  rw [this c.run.attrs, this d.run.attrs, hattrs, hcall]
+
+/-- **C01_store_readable**: outside the known finding, the store technique the generator picks always lands
+    where attribute lookup finds the value. -/
+theorem C01_store_readable (r : RunIn) (a : Attr) (hm : misplaced r a = false) (hp : participates a = true) :
+    storeLoc (tech r.cfg (r.belief a.name) a) a = readLoc a := by
+  unfold misplaced at hm
+  unfold storeLoc readLoc
+  cases ht : tech r.cfg (r.belief a.name) a <;> simp_all
+
+/-- slotted, and mutable, classes never misplace a value: the known finding needs a frozen dict class -/
+theorem C01_misplaced_needs_frozen_dict (r : RunIn) (a : Attr) (h : misplaced r a = true) :
+    r.cfg.frozen = true ∧ r.cfg.slots = false := by
+  unfold misplaced tech at h
+  grind
+
+/-- **C01_annotations**: a parameter is annotated with the field's type when there is no converter, with
+    the converter's first-parameter annotation when there is one, and not at all otherwise. -/
+theorem C01_annotations (a : Attr) :
+    annotationOf a =
+      if a.init then
+        (match a.conv with
+         | none => a.type.map (fun t => (a.alias, t))
+         | some _ => a.convType.map (fun t => (a.alias, t)))
+      else none := by
+  unfold annotationOf
+  cases a.init <;> cases a.conv <;> cases a.type <;> cases a.convType <;> simp
+
+/-- **C01_model_meets_spec**: the model satisfies the declarative specification on every well-formed case
+    outside the listed known finding (K3). -/
+theorem C01_model_meets_spec (c : Case) (hwf : wf c = true) (hk : known c = []) :
+    spec c (model c) = true := by
+  unfold spec model
+  cases hok : callOk (params c.run.attrs) c.call with
+  | true =>
+    have hb := bodyOK_of_wf c hwf hk hok
+    obtain ⟨h1, h2, _, _, _, _⟩ := runInit_spec c hb
+    obtain ⟨e, v⟩ := C01_values c hwf hk hok
+    simp [h1, h2, hok, e, v]
+  | false =>
+    have hte := (C01_bind_iff c hwf hk).2 hok
+    have : bind (params c.eff.attrs) c.call = none := bind_none _ _ (by simpa using hok)
+    have hs : (runInit c).sig = sigOf c.eff.attrs ∧ (runInit c).annotations = annotationsOf c.eff.attrs := by
+      unfold runInit; dsimp only; rw [this]; simp
+    simp [hs.1, hs.2, hok, hte]
+
+end Attrs.C01
 
 namespace Attrs.C01
 open Attrs.Init
 
-/-- **C01_alias_params_order**: positional parameters precede keyword-only ones. -/
-theorem C01_params_pos_then_kw (attrs : List Attr) :
-    params attrs = ((attrs.filter (·.init)).map paramOf).filter (!·.kwOnly) ++
-                   ((attrs.filter (·.init)).map paramOf).filter (·.kwOnly) := rfl
+/-- the K3 witness: `A(frozen, slots) ← B(frozen dict) ← C(frozen dict)` with attr.s's legacy collection -/
+def k3Witness : Case :=
+  { run := { cfg := { frozen := true, slots := false, cacheHash := false, isExc := false, pre := .none,
+                      post := false, clsHook := false, runValidators := true, collectByMro := false },
+             attrs := [{ name := "x", alias := "x", dflt := .none, init := true, kwOnly := false, conv := none,
+                         validators := 0, onSet := .unset, isSlot := true, type := none, convType := none }],
+             own := [], bases := [{ hasSlotsDunder := false, attrs := [("x", true)] },
+                                  { hasSlotsDunder := true, attrs := [("x", false)] }],
+             cacheIsSlot := false, fault := none },
+    call := { pos := ["t1"], kw := [] }, isDefine := false, clsOnSet := .unset }
+
+/-- **C01_known_slot_belief_witness** (K3): a well-formed case on which the model — like the code —
+    violates the property: the value is stored where lookup does not find it. -/
+theorem C01_known_slot_belief_witness :
+    wf k3Witness = true ∧ "K3" ∈ known k3Witness ∧ spec k3Witness (model k3Witness) = false := by
+  refine ⟨by decide, by decide, by decide⟩
+
+/-- non-vacuity: a non-trivial well-formed case without known findings exists (hypotheses of the theorems
+    above are satisfiable) -/
+example : wf { k3Witness with run := { k3Witness.run with cfg := { k3Witness.run.cfg with slots := true } } } = true ∧
+    known { k3Witness with run := { k3Witness.run with cfg := { k3Witness.run.cfg with slots := true } } } = [] := by
+  refine ⟨by decide, by decide⟩
 
 end Attrs.C01
